@@ -35,7 +35,8 @@ ASSUMPTIONS = [
 ]
 
 LEAVES = [None, False, True, 0, 1, 1.0, "", "a"]
-BOUNDARY = [2**63, -(2**63) - 1, 2**64 + 1, -(2**80), 10**40, -0.0, 5e-324, 1e308, 1.7976931348623157e308,
+BOUNDARY = [2**63, -(2**63) - 1, 2**64 + 1, -(2**80), 10**40, 2**1024, -(2**1024) - 1, 10**400, -(10**1000),
+            -0.0, 5e-324, 1e308, 1.7976931348623157e308,
             0.1, 1e-7, 123456789.125, "\u0000", "\U0001F600", "\\", '"', " ", "a.b", " ", "\n\t",
             "é", "null", "true", "1", "1.0", 1.0, 1, True, 0, False, 0.0, None, "", [], {}, [[]], [{}],
             {"": {}}, {"": ""}, {"a": [None]}]
@@ -254,7 +255,7 @@ def _ok_for(ci, v):
 def _nt(case):
     prior, val = case[4], case[5]
     return (prior is not ABSENT) or kind_of(val) in ("dict", "list") or any(
-        type(val) is type(b) and val == b for b in BOUNDARY[:31])
+        type(val) is type(b) and val == b for b in BOUNDARY[:35])
 
 
 def _fails(case):
